@@ -202,7 +202,7 @@ class Main(Part):
         @st.composite
         def strat(draw):
             c = draw(gen.corpus_case(max_extent=3, families=("occ", "occ", "flat", "flat", "flatd", "flatd", "flat2", "affine", "affine",
-                                                             "shape", "cascade", "plain")))
+                                                             "shape", "cascade", "plain", "conv2p")))
             return {"spec": c["spec"], "family": c.get("family"), "mode": c.get("mode"),
                     "choices": draw(st.lists(st.integers(0, 7), min_size=8, max_size=40))}
         return strat()
@@ -269,7 +269,7 @@ class Observable(Part):
         def strat(draw):
             # weighted towards dynamic partitioning, flattening and index math: that is where statements sit between loops
             c = draw(gen.corpus_case(max_extent=3, families=("occ", "occ", "occ", "flat", "flat", "flatd", "flatd", "flat2", "affine", "affine",
-                                                             "shape", "cascade", "plain")))
+                                                             "shape", "cascade", "plain", "conv2p")))
             c["choices"] = draw(st.lists(st.integers(0, 7), min_size=8, max_size=40))
             return c
         return strat()
